@@ -74,6 +74,10 @@ class Wrapped(object):
             ev.append(["raise", self.idx, nerr(), x, bool(getattr(e, "reported", False))])
             self.rec["raised"] = {"cls": x, "type": type(e).__name__, "pos": err_pos(e), "msg": str(getattr(e, "message_only", e))[:300],
                                   "reported": bool(getattr(e, "reported", False)), "phase": self.__name__,
+                                  "cause": crash_cause(e) if x == "CompilerCrash" else
+                                           ({"type": type(e).__name__, "msg": str(e)[:160],
+                                             "at": (lambda fr: "%s:%s" % (os.path.basename(fr[-1].filename), fr[-1].name) if fr else "?")(traceback.extract_tb(e.__traceback__))}
+                                            if x in ("Other", "InternalError") else None),
                                   "tb": "".join(traceback.format_exception(type(e), e, e.__traceback__))[-1500:] if x in ("Other", "InternalError") else ""}
             raise
         ev.append(["exit", self.idx, nerr(), ""])
@@ -104,6 +108,20 @@ def wrap_factory(orig):
 
 Pipeline.create_pyx_pipeline = wrap_factory(Pipeline.create_pyx_pipeline)
 # (create_py_pipeline calls create_pyx_pipeline through the module global, so it is wrapped as well)
+
+def crash_cause(e):
+    """for a CompilerCrash: the exception it wraps and where that was raised"""
+    try:
+        cause = e.args[3] if len(e.args) > 3 else None
+        tb = e.args[4] if len(e.args) > 4 else None
+        if cause is None:
+            return None
+        frames = traceback.extract_tb(tb or cause.__traceback__)
+        last = frames[-1] if frames else None
+        return {"type": type(cause).__name__, "msg": str(cause)[:160],
+                "at": "%s:%s" % (os.path.basename(last.filename), last.name) if last else "?"}
+    except Exception as x:
+        return {"type": "?", "msg": repr(x)[:100], "at": "?"}
 
 def err_pos(err):
     pos = getattr(err, "position", None)
@@ -138,7 +156,8 @@ def report_error(err, use_stack=True):
         if rec is not None and nerr() > before:
             pos, msg = err_pos(err), str(getattr(err, "message_only", ""))
             w = where(pos, msg)
-            rec["errors"].append({"cls": xclass(err), "pos": pos, "msg": msg[:300], "w": w})
+            rec["errors"].append({"cls": xclass(err), "pos": pos, "msg": msg[:300], "w": w,
+                                  "cause": crash_cause(err) if isinstance(err, Errors.CompilerCrash) else None})
             rec["ev"].append(["error", 0, nerr(), xclass(err), w])
 Errors.report_error = report_error
 
